@@ -1,5 +1,6 @@
 import MosnVerif.Drive.Util
 import MosnVerif.Model.Route
+import MosnVerif.Model.RouteRegex
 /-!
 Driver for C04 case lines (harness/c04/c04.go):
 
@@ -8,6 +9,7 @@ C04 <kind> <nvh> { vh <ndom> <dom>… <nrules> { r <prefix> <path> <rx> <nvars> 
                                                      <ndsl> {<empty 0|1> <id> <compiles 0|1>}… }… }…
            req <map c|b|h|2> <nvars> {<name> <value|!>}… <nhdrs> {<name> <value>}… ps <n> {<:name> <value>}…
            rx <n> {<id> <input> <0|1>}…  dx <n> {<id> <t|f|e|n>}…   (e = evaluation error, n = not a boolean)
+           pt <n> {<id> <pattern text>}…
     => <errorName> | panic | ok <vhostIndex|-1> <vh.rule|none> <vh.rule,…|->
 ```
 strings are percent-escaped (`%` alone = empty), `!` = unset / no regex, `<rx>` = `<id>:<compiles 0|1>`.
@@ -126,6 +128,7 @@ structure Case where
   pseudo : List (Str × Str)
   rxTab : List (Nat × Str × Bool)
   dxTab : List (Nat × Option Bool)
+  pats : List (Nat × Str) := []
 
 def caseP : P Case := do
   let n ← nat
@@ -151,7 +154,10 @@ def caseP : P Case := do
     let t ← next
     if t == "t" then pure (i, some true) else if t == "f" then pure (i, some false)
     else if t == "e" || t == "n" then pure (i, (none : Option Bool)) else failure)
-  pure ⟨cfg, vars, kind, hdrs, pseudo, tab, dtab⟩
+  lit "pt"
+  let npt ← nat
+  let pats ← rep npt (do let i ← nat; let s ← str; pure (i, s))
+  pure ⟨cfg, vars, kind, hdrs, pseudo, tab, dtab, pats⟩
 
 def lookupStr {β : Type} (l : List (Str × β)) (k : Str) : Option β :=
   match l.find? (fun kv => kv.1 = k) with
@@ -168,6 +174,22 @@ def Case.rx (c : Case) : RxOracle := fun id s =>
   match c.rxTab.find? (fun r => r.1 = id ∧ r.2.1 = s) with
   | some r => r.2.2
   | none => false
+
+/-- the text of pattern `id` -/
+def Case.patOf (c : Case) : Nat → Option Str := fun id => (c.pats.find? (fun r => r.1 = id)).map (·.2)
+
+/-- the reference oracle: patterns inside the subset of Model/RouteRegex.lean are matched by the Lean matcher -/
+def Case.refRx (c : Case) : RxOracle := MosnVerif.Model.RouteRegex.refRx c.patOf c.rx
+
+/-- Go's `regexp` (the shipped truth table) and the reference matcher agree on every row of every pattern inside the
+subset, and Go compiles every such pattern (it has a row for the empty input) -/
+def Case.refAgrees (c : Case) : Bool :=
+  c.pats.all (fun ip =>
+    match MosnVerif.Model.RouteRegex.parseRe ip.2 with
+    | none => true
+    | some re =>
+      c.rxTab.any (fun r => r.1 = ip.1) &&
+      c.rxTab.all (fun r => r.1 != ip.1 || MosnVerif.Model.RouteRegex.matchesRe re r.2.1 == r.2.2))
 
 /-- every compiling pattern of the configuration has a truth value for every request string and for "" -/
 def Case.rxComplete (c : Case) : Bool :=
@@ -207,8 +229,9 @@ def model (c : Case) : String :=
   | .ok t => render (answer c.rx t c.cfg c.req)
 
 /-- the declarative reference's answer for a configuration that MOSN accepted (`Props.C04.answer_refines`:
-the model's answer always equals it) -/
-def spec (c : Case) : String := render (Spec.answer c.rx c.cfg c.req)
+the model's answer always equals it; `answer_refines_reference`: with the reference regex matcher in place of the
+oracle on the patterns of the subset) -/
+def spec (c : Case) : String := render (Spec.answer c.refRx c.cfg c.req)
 
 def run (caseToks impl : List String) : String :=
   match caseToks with
@@ -216,6 +239,7 @@ def run (caseToks impl : List String) : String :=
     match caseP toks with
     | some (c, []) =>
       if !c.rxComplete then "E E oracle-table-incomplete" else
+      if !c.refAgrees then "E E regex-reference-differs-from-go-regexp" else
       let m := model c
       let i := joinWith " " impl
       let agree := m == i
